@@ -704,6 +704,27 @@ def rule_unbounded_name_reads(ctx):
                 key += "#%d" % occ[key]
             line = s.get("l", f.line)
             if NEED[c[1]] in names:
+                # the queried length is compared with a constant that fits the array: `len <= K` / refusal on `len > K` admit K + 1
+                # bytes with the terminator, `len < K` / refusal on `len >= K` admit K
+                from .facts import is_int, int_val, walk
+                lenvars = set()
+                for _b2, _i2, _s2, k2 in f.calls():
+                    if k2[1] == NEED[c[1]] and len(k2[3]) > 1:
+                        t2 = strip(k2[3][1])
+                        if kind(t2) == "addr" and kind(strip(t2[1])) == "var":
+                            lenvars.add(strip(t2[1])[1])
+                admits = []
+                for _b3, _i3, _s3, x in f.nodes(True):
+                    if x[0] == "bin" and x[1] in ("<", "<=", ">", ">="):
+                        l_, r_ = strip(x[2]), strip(x[3])
+                        if kind(l_) == "var" and l_[1] in lenvars and is_int(r_):
+                            admits.append(int_val(r_) + (1 if x[1] in ("<=", ">") else 0))
+                        elif kind(r_) == "var" and r_[1] in lenvars and is_int(l_):
+                            admits.append(int_val(l_) + (1 if x[1] in (">=", "<") else 0))
+                size = int(m.group(1))
+                if admits and max(admits) > size:
+                    ctx.violated("NAMEBUF", key, f.where(line), "%s() is queried, but the length is admitted up to %d bytes (with the terminator) while `%s` holds %d: a class or name in between overruns the array" % (NEED[c[1]], max(admits), a[1], size))
+                    continue
                 ctx.holds("NAMEBUF", key, f.where(line), "%s() is queried in the same routine before %s copies into `%s` (%s bytes)" % (NEED[c[1]], c[1], a[1], m.group(1)), nontrivial=True)
             else:
                 ctx.violated("NAMEBUF", key, f.where(line), "%s() copies a Vgroup's %s, which has no length limit, into `%s` (%s bytes) and the routine never asks for its length: a longer one overruns the array" %
